@@ -703,6 +703,31 @@ _m('has_internal_mods_at_index', lambda pt, a: a['self'].has_internal_mods_at_in
    gen=lambda S, W: (lambda s: ok({'self': s, 'index': V(S.randint(0, max(0, seqlen(W, s) - 1)))}) if s else None)(
        H(W, S, 'ann')), weight=0.5)
 
+# ------------------------------------------------------------------------------------------ vocabulary lookups
+# (the databases are process-wide objects every query reads; their own lookup methods are queries too.  Entries are
+#  projected to ids: the entry objects themselves are the database's, by design)
+
+_DBN = ['UNIMOD_DB', 'PSI_MOD_DB', 'XLMOD_DB', 'RESID_DB']
+_DBMASS = [79.97, 80.0, 79.966331, 15.9949, 15.9953, 42.01, 42.010565, 0.984, 100.0, 1.0]
+_DBTOL = [0.1, 0.1, 0.01, 1.0, 0.005, 0.001]
+
+
+def _g_dbmass(S, W):
+    return {'db': V(S.pick(_DBN)), 'mass': V(S.pick(_DBMASS)), 'tol': V(S.pick(_DBTOL))}
+
+
+op('db.entries_by_mono_mass', _g_dbmass,
+   lambda pt, a: tuple(e.id for e in getattr(pt, a['db']).get_entries_by_mono_mass(a['mass'], a['tol'])), weight=0.8)
+op('db.entries_by_avg_mass', _g_dbmass,
+   lambda pt, a: tuple(e.id for e in getattr(pt, a['db']).get_entries_by_avg_mass(a['mass'], a['tol'])), weight=0.5)
+op('db.contains_mono_mass', _g_dbmass,
+   lambda pt, a: getattr(pt, a['db']).contains_mono_mass(a['mass'], a['tol']), weight=0.5)
+op('db.lookup_name',
+   lambda S, W: {'db': V('UNIMOD_DB'), 'name': V(S.pick(['Phospho', 'Oxidation', 'Acetyl', 'phospho', 'Nope', 'Methyl']))},
+   lambda pt, a: (getattr(pt, a['db']).contains_name(a['name']),
+                  getattr(pt, a['db']).get_entry_by_name(a['name']).id if getattr(pt, a['db']).contains_name(a['name'])
+                  else None), weight=0.4)
+
 
 def _g_ed_pop_field(S, W):
     return ok({'self': H(W, S, 'ann'), 'which': V(S.pick(['pop_charge', 'pop_charge_adducts', 'pop_cterm_mods',
